@@ -235,13 +235,13 @@ def run_z3old(smt2, timeout_ms):
 def solve_one(job):
     """job = (id, smt2 | (light_smt2, full_smt2), timeout_ms, portfolio) -> result dict."""
     oid, smt2, timeout_ms, portfolio = job
-    if isinstance(smt2, tuple) and len(smt2) == 3:
-        coi, light, full = smt2
+    if isinstance(smt2, tuple) and len(smt2) == 4:
+        coi, light, full, qf = smt2
         r = solve_one((oid, coi, min(timeout_ms, 10000), portfolio))
         if r['status'] == 'unsat':
             r['variant'] = 'cone of influence'
             return r
-        r2 = solve_one((oid, (light, full) if light is not None else full, timeout_ms, portfolio))
+        r2 = solve_one((oid, (light, full, qf) if light is not None else full, timeout_ms, portfolio))
         r2['tried'] = r.get('tried', []) + r2.get('tried', [])
         if r2['status'] == 'unknown' and timeout_ms > 5000:
             # last resort: the small (cone-of-influence) query again with the whole budget
@@ -252,13 +252,18 @@ def solve_one(job):
                 return r3
         return r2
     if isinstance(smt2, tuple):
-        light, full = smt2
-        r = solve_one((oid, light, min(timeout_ms, 8000), portfolio))
+        light, full, qf = smt2
+        r = solve_one((oid, light, min(timeout_ms, 8000) if qf is None else timeout_ms, portfolio))
         if r['status'] == 'unsat':
-            r['variant'] = 'quantifier-free instances'
+            r['variant'] = 'quantifier-free instances' + ('' if qf is None else ' + definitional facts')
             return r
         r2 = solve_one((oid, full, timeout_ms, portfolio))
         r2['tried'] = r.get('tried', []) + r2.get('tried', [])
+        if r2['status'] == 'unknown' and r['status'] != 'sat' and qf is not None:
+            # the strictly quantifier-free form (definitional facts with a quantified body dropped
+            # too) only serves the refutation verdict below
+            r = solve_one((oid, qf, min(timeout_ms, 8000), portfolio))
+            r2['tried'] = r2['tried'] + r.get('tried', [])
         if r2['status'] == 'unknown' and r['status'] == 'sat':
             # refuted once every quantified assumption is replaced by its instances at the terms of
             # the path, and not proved from the quantified form either: reported as refuted, with
@@ -328,10 +333,11 @@ def solve_all(obligations, timeout_ms=10000, procs=None, portfolio=None):
         smt2 = to_smt2(ob.formula())
         ob.smt2 = smt2
         light = to_smt2(ob.formula(light=True)) if ob.has_quantified_assumptions() else None
+        qf = to_smt2(ob.formula(light='qf')) if (light is not None and ob.has_quantified_facts()) else None
         if len(ob.pc) > 12:
-            smt2 = (to_smt2(ob.formula_coi()), light, smt2)
+            smt2 = (to_smt2(ob.formula_coi()), light, smt2, qf)
         elif light is not None:
-            smt2 = (light, smt2)
+            smt2 = (light, smt2, qf)
         jobs.append((ob.id + '#' + str(len(jobs)), smt2, timeout_ms, portfolio))
     by_id = {}
     if jobs:
